@@ -69,6 +69,17 @@ CHECKS = {
         "the AMQP success path is model-only, the refusing-broker path is exercised for real.",
    technique="TLA+ specs + TLC; traces recorded from the real server (hooks, strace) validated against the specs",
    engine="signserver"),
+ "C14": dict(cat="model_checking", design="§4 C14",
+   text="spec/Relic.tla composes the request life cycle, the key cache and the daemon's shutdown sequence (3 interleaved requests, "
+        "rotation, expiry, shutdown at any moment): Isolation, AuditComplete, RecordFaithful, Drain, NoShutdownCasualty, "
+        "CacheKeySound, liveness; TokenCache (2 clients at critical-section grain) and AuditLog (3 appenders); negative controls. "
+        "Binding: the harness+server built with the race detector; cold-start bursts, mixed concurrent load where every client "
+        "verifies its own response (leaf certificate, digest, body), daemon.Close() while slow requests are in flight; traces "
+        "validated by SignServer_Trace, TokenCache_Trace (per cache instance) and Relic_Trace.",
+   note="Trusted: the Go race detector (sees only schedules that occurred), verif hooks under the cache mutex, fake tokens that "
+        "refuse to work once closed. net/http and runtime internals are not modelled.",
+   technique="TLA+ composition checked by TLC; race-detector runs of the real server with recorded traces validated against the specs",
+   engine="relic-concurrency"),
 }
 
 NOT_YET = {}
